@@ -12,6 +12,7 @@ CONSTANTS Comp = "hub_re"
   NBuf = 0
   Gaps <- G_none
   Strict = TRUE
+  Busy = FALSE
   D = 4
 INIT Init
 NEXT Next
